@@ -1,6 +1,7 @@
 import DriverVSA.SIOps
 import DriverVSA.SetOps
 import DriverVSA.ExprOps
+import DriverVSA.BalOps
 /-! Line-protocol driver for the VSA family: one request per line, first token selects the handler.
 Imports only core-Lean model files under Claripy/ (never Mathlib), so it links as an executable. -/
 
@@ -9,6 +10,7 @@ def dispatch (line : String) : String :=
   | "si" :: args => DriverVSA.handleSI args
   | "ds" :: args => DriverVSA.handleDS args
   | "ex" :: args => DriverVSA.handleEx args
+  | "bal" :: args => DriverVSA.handleBal args
   | _ => "bad-op"
 
 partial def loop (h : IO.FS.Stream) (out : IO.FS.Stream) : IO Unit := do
